@@ -12,6 +12,11 @@ import (
 	"unsafe"
 )
 
+// maxPrealloc bounds the memory that is allocated on behalf of a declared length before the data it announces
+// has been received. Larger strings and aggregates grow while they are read, so that a bogus length in a reply
+// cannot exhaust the memory of the process.
+const maxPrealloc = 1 << 19
+
 var errChunked = errors.New("unbounded redis message")
 var errOldNull = errors.New("RESP2 null")
 var errNegativeLength = errors.New(unexpectedNumByte + "45") // a length below -1, or one that does not fit
@@ -102,7 +107,7 @@ func readBlobString(i *bufio.Reader) (m RedisMessage, err error) {
 			if length < 0 {
 				return RedisMessage{}, errNegativeLength
 			}
-			sb.Grow(int(length))
+			sb.Grow(int(min(length, maxPrealloc)))
 			if _, err = io.CopyN(&sb, i, length); err != nil {
 				return RedisMessage{}, err
 			}
@@ -227,9 +232,15 @@ func readB(i *bufio.Reader) (*byte, int64, error) {
 	if length < 0 {
 		return nil, 0, errNegativeLength
 	}
-	bs := make([]byte, length)
+	bs := make([]byte, min(length, maxPrealloc))
 	if _, err = io.ReadFull(i, bs); err != nil {
 		return nil, 0, err
+	}
+	for n := int64(len(bs)); n < length; n = int64(len(bs)) { // grow as the data arrives
+		bs = append(bs, make([]byte, min(n, length-n))...)
+		if _, err = io.ReadFull(i, bs[n:]); err != nil {
+			return nil, 0, err
+		}
 	}
 	if _, err = i.Discard(2); err != nil {
 		return nil, 0, err
@@ -252,13 +263,13 @@ func readE(i *bufio.Reader) (*RedisMessage, int64, error) {
 }
 
 func readA(i *bufio.Reader, length int64) (*RedisMessage, int64, error) {
-	var err error
-
-	msgs := make([]RedisMessage, length)
-	for n := range length {
-		if msgs[n], err = readNextMessage(i); err != nil {
+	msgs := make([]RedisMessage, 0, min(length, int64(maxPrealloc/messageStructSize)))
+	for range length {
+		m, err := readNextMessage(i)
+		if err != nil {
 			return nil, 0, err
 		}
+		msgs = append(msgs, m)
 	}
 	return unsafe.SliceData(msgs), length, nil
 }
